@@ -8,7 +8,9 @@ use datamatrix::data::{decode_str, latin1_to_utf8, utf8_to_latin1};
 use super::enc_common::{builder, EncCase};
 
 pub fn eval(ctx: &mut Ctx, s: &str, macros: bool, tag: &str) {
-    let cfg = EncCase { input: vec![], list: "default".into(), mask: 63, macros, fnc1: false, eci: None, order: 0, prelude: 0, skipdef: false, entry: 0 };
+    // every third string goes through the wrapper DataMatrix::encode_str instead of the builder (where it applies)
+    let entry = if macros && s.len() % 3 == 0 { 2 } else { 0 };
+    let cfg = EncCase { input: vec![], list: "default".into(), mask: 63, macros, fnc1: false, eci: None, order: 0, prelude: 0, skipdef: false, entry };
     eval_cfg(ctx, s, &cfg, tag)
 }
 
@@ -22,8 +24,16 @@ pub fn eval_cfg(ctx: &mut Ctx, s: &str, cfg: &EncCase, tag: &str) {
         c.f.remove("input");
         c
     };
-    let Some(b) = builder(cfg) else { return ctx.harness_error("bad list spec") };
-    let res = guard(|| b.encode_str(s).map(|dm| dm.data_codewords().to_vec()));
+    crate::ctx::trace_case(|| case().flat());
+    let use_wrapper = cfg.entry == 2 && cfg.macros && cfg.mask == 63 && !cfg.fnc1;
+    let res = if use_wrapper {
+        let Some(list) = crate::util::list_from_spec(&cfg.list) else { return ctx.harness_error("bad list spec") };
+        ctx.count("entry.DataMatrix::encode_str");
+        guard(|| datamatrix::DataMatrix::encode_str(s, list).map(|dm| dm.data_codewords().to_vec()))
+    } else {
+        let Some(b) = builder(cfg) else { return ctx.harness_error("bad list spec") };
+        guard(|| b.encode_str(s).map(|dm| dm.data_codewords().to_vec()))
+    };
     let cw = match res {
         Err(_) => return ctx.count("encode.panic(C11)"),
         Ok(Err(_)) => return ctx.count("encode.refused"),
